@@ -696,6 +696,28 @@ def install_more(models):
     def _string_id(ex, c, a):
         return deref(a[0])
 
+    @R(r"^<f64 as ToString>::to_string$")
+    def _f64_to_string(ex, c, a):
+        v = a[0]
+        return repr(v) if isinstance(v, float) else "<f64>"
+
+    @R(r"^<&*(str|std::string::String|String|TokenText<'_>|SmolStr) as ToString>::to_string$|^<(std::string::)?String as PartialEq<&str>>::eq_placeholder$")
+    def _to_string(ex, c, a):
+        v = deref(a[0])
+        if isinstance(v, (StrSlice, str)):
+            return v
+        if isinstance(v, Opaque) and str(v.what).startswith("fmt"):
+            return "<formatted>"
+        raise Unsupported("to_string of " + repr(v)[:40])
+
+    @R(r"^<(std::string::)?String as PartialEq(<&?str>)?>::(eq|ne)$|^<&?str as PartialEq<(std::string::)?String>>::(eq|ne)$|^<(std::string::)?String as PartialEq<(std::string::)?String>>::(eq|ne)$")
+    def _string_eq(ex, c, a):
+        h = ex.models.lookup("<str as PartialEq>::eq")
+        r = h(ex, "<str as PartialEq>::eq", [deref(a[0]), deref(a[1])])
+        if c.endswith("::ne"):
+            return SB(z3.Not(r.e)) if isinstance(r, SB) else (not r)
+        return r
+
     @R(r"^Option::<&str>::unwrap_or_default$")
     def _unwrap_or_default_str(ex, c, a):
         o = a[0]
